@@ -14,7 +14,7 @@ Case (JSON-like):
        | ["split", t, r, c, acc]
        | ["text",  t, r, c, s]                     cell.text = s
        | ["para",  t, r, c, s]                     cell.text_frame.add_paragraph().text = s  (s has no "\n")
-       | ["rowh",  t, i, emu] | ["colw", t, j, emu]
+       | ["rowh",  t, i, emu] | ["colw", t, j, emu] | ["frame", t, 0=height|1=width, emu]
   acc selects how the _Cell proxy is obtained: 0 table.cell(), 1 table.rows[r].cells[c], 2 iter_cells().
 """
 
@@ -27,6 +27,8 @@ class TModel(object):
         self.content = [[[] for _ in range(cols)] for _ in range(rows)]
         self.colw = None  # filled from the observed table after creation (sum is checked there)
         self.rowh = None
+        self.frame_w = None   # width / height the caller gave the graphic frame itself: stays until a column width /
+        self.frame_h = None   # row height changes (the frame then equals the sum again)
 
     def copy(self):
         m = TModel.__new__(TModel)
@@ -36,6 +38,7 @@ class TModel(object):
         m.content = [[list(x) for x in row] for row in self.content]
         m.colw = None if self.colw is None else list(self.colw)
         m.rowh = None if self.rowh is None else list(self.rowh)
+        m.frame_w, m.frame_h = self.frame_w, self.frame_h
         return m
 
     def key(self):
@@ -233,7 +236,7 @@ def case_strategy(max_dim=12, max_ops=15):
             models.append(TModel(rows, cols))
         ops = []
         nops = draw(st.integers(1, max_ops))
-        kinds = ["merge"] * 8 + ["split"] * 4 + ["text"] * 4 + ["para", "rowh", "colw"]
+        kinds = ["merge"] * 8 + ["split"] * 4 + ["text"] * 4 + ["para", "rowh", "colw", "frame"]
         if ntab == 2:
             kinds += ["xmerge"] * 2
         for _ in range(nops):
@@ -282,6 +285,8 @@ def case_strategy(max_dim=12, max_ops=15):
                 s = draw(text if kind == "text" else para)
                 ops.append([kind, t, r, c, s])
                 # (content is irrelevant for the choices made while drawing)
+            elif kind == "frame":
+                ops.append(["frame", t, draw(st.integers(0, 1)), draw(size)])
             elif kind == "rowh":
                 ops.append(["rowh", t, draw(st.integers(0, m.r - 1)), draw(size)])
             else:
